@@ -43,6 +43,16 @@ def _index_target(target: ast.AST, it: ast.AST) -> Optional[str]:
             a = it.args
             if len(a) == 1 or (len(a) == 2 and _nonneg_const(a[0])) or (len(a) == 3 and _nonneg_const(a[0]) and _nonneg_const(a[2])):
                 return target.id
+
+            def _int(e):
+                if isinstance(e, ast.UnaryOp) and isinstance(e.op, ast.USub) and isinstance(e.operand, ast.Constant) and isinstance(e.operand.value, int):
+                    return -e.operand.value
+                if isinstance(e, ast.Constant) and isinstance(e.value, int) and not isinstance(e.value, bool):
+                    return e.value
+                return None
+            # a count-down that stops before it passes -1: range(X, -1, -1), range(X, 0, -2) .. -- every value is >= 0
+            if len(a) == 3 and _int(a[2]) is not None and _int(a[2]) < 0 and _int(a[1]) is not None and _int(a[1]) >= -1:
+                return target.id
     return None
 
 
